@@ -92,11 +92,12 @@ func genBalCfg(r *rng, j Journal, o genOpts, valued bool, structure bool) BalCfg
 }
 
 func defaultOpts(r *rng) genOpts {
+	start, days := genSpan(r, 5, 300)
 	return genOpts{
 		nAccounts: r.rangeInt(5, 10), nTxn: r.rangeInt(3, 25),
 		commodities: allComs[:r.rangeInt(1, 4)], prices: true, accruals: r.chance(40), perf: r.chance(30),
 		assertions: r.chance(60), closes: r.chance(40),
-		startDate: time.Date(2020, 1, 1, 0, 0, 0, 0, time.UTC).AddDate(0, 0, r.intn(400)), days: r.rangeInt(5, 300),
+		startDate: start, days: days,
 		manyDec: r.chance(30),
 	}
 }
